@@ -7,7 +7,7 @@ rm -rf $D && mkdir -p $D
 rsync -a --exclude target --exclude .git /repo/ $D/repo/
 rsync -a --exclude .lake --exclude target --exclude work --exclude replay --exclude .git /verif/ $D/verif/
 sed -i "s#/verif/hooks/dnp3_hooks.rs#$D/verif/hooks/dnp3_hooks.rs#" $D/repo/dnp3/src/lib.rs
-sed -i "s#/repo/dnp3#$D/repo/dnp3#" $D/verif/harness/Cargo.toml
+sed -i "s#\"/repo/#\"$D/repo/#g" $D/verif/harness/Cargo.toml
 sed -i "s#/verif/harness/target#$D/verif/harness/target#" $D/verif/harness/.cargo/config.toml
 sed -i "s#/verif/harness#$D/verif/harness#g" $D/verif/check 2>/dev/null || true
 echo $D
